@@ -23,6 +23,7 @@ from typing import List
 from typing import Optional
 from typing import Tuple
 
+from .consteval import ExtRef
 from .consteval import Folder
 from .consteval import NotConst
 from .consteval import Scope
@@ -126,9 +127,11 @@ class Explorer:
         if any(isinstance(n, ast.Name) and (env.get(n.id) is UNKNOWN or isinstance(env.get(n.id), Text)) for n in ast.walk(e)):
             return UNKNOWN
         try:
-            return self.folder.eval(e, scope)
+            v = self.folder.eval(e, scope)
         except NotConst:
             return UNKNOWN
+        # a reference to something outside the package (or to an unbound `self`) is not a value
+        return UNKNOWN if isinstance(v, ExtRef) else v
 
     def test(self, t: ast.expr, env: Dict[str, Any]) -> Optional[bool]:
         o = self.oracle(t, env)
@@ -156,6 +159,8 @@ class Explorer:
                 return None
         v = self.value(t, env)
         if v is UNKNOWN or isinstance(v, Text):
+            return None
+        if v is not None and not isinstance(v, (bool, int, float, str, bytes, tuple, list, dict, set, frozenset)):
             return None
         try:
             return bool(v)
